@@ -3,6 +3,7 @@ package props
 import (
 	"fmt"
 	"net"
+	"sync"
 	"time"
 
 	"verif/dsim"
@@ -60,6 +61,7 @@ type link struct {
 	peerReset  bool
 	ordinal  int // k-th link of its endpoint
 	onData   func()
+	txMu     sync.Mutex // guards the sender-side state when several tasks send on one link
 	hbSent   []sentItem
 	keptAlive bool
 	nodeGone  bool
@@ -150,6 +152,7 @@ func (l *link) mkFrame() (*ref.Frame, uint32) {
 // send transmits one scripted item and logs it.
 func (l *link) send(kind int, split bool) error {
 	dsim.EnsureReleased("peer-send")
+	l.txMu.Lock()
 	var it sentItem
 	it.kind = kind
 	switch kind {
@@ -182,21 +185,27 @@ func (l *link) send(kind int, split bool) error {
 	}
 	it.t = l.e.now()
 	l.sent = append(l.sent, it)
+	pos := len(l.sent) - 1
+	l.txMu.Unlock() // never held across a scheduling point
 	dsim.Record("peer-tx", fmt.Sprintf("%s kind=%d idx=%d %x", l.name, kind, it.index, it.bytes), nil, int64(l.id), int64(kind), int64(it.index))
 	err := l.transmit(it.bytes, split)
+	l.txMu.Lock()
 	if err == nil {
-		l.sent[len(l.sent)-1].done = true
+		l.sent[pos].done = true
 	} else {
 		l.txErr = err
 	}
+	l.txMu.Unlock()
 	return err
 }
 
 // sendHeartbeat sends a standard HEARTBEAT with the given autopilot type.
 func (l *link) sendHeartbeat(autopilot byte) error {
 	dsim.EnsureReleased("peer-hb")
+	l.txMu.Lock()
 	f := &ref.Frame{V2: l.v2, Seq: l.seq, Sys: l.sys, Comp: l.comp, MsgID: 0}
 	l.seq++
+	l.txMu.Unlock()
 	vals := ref.Values{{Elems: []uint64{2}}, {Elems: []uint64{uint64(autopilot)}}, {Elems: []uint64{0}}, {Elems: []uint64{0}}, {Elems: []uint64{4}}, {Elems: []uint64{3}}}
 	f.Payload = ref.DefHeartbeat.Encode(vals, l.v2)
 	if k := l.e.cfg.inKey; k != nil {
@@ -207,7 +216,9 @@ func (l *link) sendHeartbeat(autopilot byte) error {
 		sign(f, *k, byte(l.id), sigTicks())
 	}
 	it := sentItem{kind: sendValid, f: f, bytes: f.Encode(), t: l.e.now(), index: 1 << 30}
+	l.txMu.Lock()
 	l.hbSent = append(l.hbSent, it)
+	l.txMu.Unlock()
 	dsim.Record("peer-hb", fmt.Sprintf("%s autopilot=%d %x", l.name, autopilot, it.bytes), nil, int64(l.id), int64(autopilot))
 	return l.transmit(it.bytes, false)
 }
@@ -233,8 +244,10 @@ func (l *link) rxLoop() {
 			l.gotData(buf[:n])
 		}
 		if err != nil {
+			l.e.mu.Lock()
 			l.rxEnd = err.Error()
 			l.rxDone = true
+			l.e.mu.Unlock()
 			dsim.Record("peer-rx-end", l.name+" "+err.Error(), nil, int64(l.id))
 			return
 		}
@@ -251,6 +264,13 @@ func (l *link) gotData(b []byte) {
 		cb()
 	}
 	dsim.Record("peer-rx", fmt.Sprintf("%s %x", l.name, b), nil, int64(l.id), int64(len(b)))
+}
+
+// rxEnded tells whether the peer's receive side has seen the end of the connection.
+func (l *link) rxEnded() bool {
+	l.e.mu.Lock()
+	defer l.e.mu.Unlock()
+	return l.rxDone
 }
 
 // wire returns everything received so far.
